@@ -27,8 +27,7 @@ package utils
 //@   nomod
 //@ func FileExists
 //@   nomod
-// cwd(): the directory taskctl was started in (os.Getwd, assumed not to change while a configuration is loaded)
-//@ fun cwd() string
+// cwd(): the directory taskctl was started in (declared with os.Getwd in /verif/libspec/os.spec)
 //@ func MustGetwd
 //@   nomod
 //@   ensures result == cwd()
